@@ -238,6 +238,9 @@ Definition c13_run (w : list Z) : list Z :=
       | 73 => zs (fun s => enc_r1 one (n_signed 64 s))
       | 74 => zs (fun s => enc_r1 one (n_signed 8 s))
       | 75 => zs (fun s => enc_r1 one (n_unsigned 8 s))
+      (* Bound{lo,hi}.Enclose(n) at int and at int8 *)
+      | 78 => match a with [lo; hi; n] => enc_bool (enclose_w 64 lo hi n) | _ => wire_error end
+      | 79 => match a with [lo; hi; n] => enc_bool (enclose_w 8 lo hi n) | _ => wire_error end
       | 77 => zs (fun s => enc_r1 one (match n_unsigned 64 s with Ok v => Ok (wrap 64 v) | r => r end))
       | _ => c13f_run fn a
       end
